@@ -37,16 +37,16 @@ Proof. exact replay_reaches_live_state. Qed.
 Print Assumptions C08_replay_reaches_live_state.
 
 (* locality + frame = the sub-log theorem.  For EVERY log (accepted, refused, duplicated and junk
-   messages alike, any clock values) and every node state: what the node holds for round r (dump
-   and signature store) after the whole log equals what it holds after the sub-sequence of round r's
-   messages alone - the messages of other rounds change nothing.  Proviso: the interleaved messages
-   of OTHER rounds are not batch proposals (a proposal stores its document list under a content
-   hash shared by all rounds; the model does not interpret the hash, so it cannot know that two
-   rounds storing under one token store the same list). *)
+   messages alike, messages of any number of other rounds - their batch proposals included - and any
+   clock values) and every node state: what the node holds for round r (dump, signature store, the
+   batch sources kept for the round) after the whole log equals what it holds after the
+   sub-sequence of round r's messages alone.  No proviso: the ghost store of decoded batch sources
+   is kept per round in the model, as the bytes travel inside the round's own payload in the code
+   (an earlier version of the model kept one store for all rounds and the theorem had to exclude
+   batch proposals of other rounds). *)
 Require Import Node.Local.
 Theorem C08_round_state_is_function_of_sublog :
   forall r l a b, lagree r a b ->
-  (forall nm, In nm l -> m_round (snd nm) <> r -> String.eqb (m_event (snd nm)) ev_sgn_start = false) ->
   lagree r (run_msgs a l) (run_msgs b (sublog r l)).
 Proof. exact round_state_is_function_of_sublog. Qed.
 Print Assumptions C08_round_state_is_function_of_sublog.
@@ -54,13 +54,11 @@ Print Assumptions C08_round_state_is_function_of_sublog.
 (* hence two logs with the same round-r sub-sequence leave a node with the same round r *)
 Theorem C08_same_sublog_same_round :
   forall r l1 l2 a, sublog r l1 = sublog r l2 ->
-  (forall nm, In nm l1 -> m_round (snd nm) <> r -> String.eqb (m_event (snd nm)) ev_sgn_start = false) ->
-  (forall nm, In nm l2 -> m_round (snd nm) <> r -> String.eqb (m_event (snd nm)) ev_sgn_start = false) ->
   ragree r (run_msgs a l1) (run_msgs a l2).
 Proof. exact two_nodes_same_sublog_agree. Qed.
 
 (* locality alone: handling a message of round r on two node states that agree on round r (and on
-   identity, verification switch and stored sources) yields the same outcome for round r *)
+   identity and verification switch) yields the same outcome for round r *)
 Theorem C08_process_message_local :
   forall now a b m, lagree (m_round m) a b ->
   rrel (m_round m) (process_message now {| h_st := a; h_tr := [] |} m) (process_message now {| h_st := b; h_tr := [] |} m).
